@@ -2,11 +2,12 @@
   Driver target `render` (C02).
   request    : `render <prompt> <mode> <cols> <flags> <hist> <left> <right> <helper> <binds> key…`
                (fields after the prompt as for target `ed`)
-  impl obs   : `<line>/<pos>/<hint|n> … => <outcome> O=<seg>|<seg>|…` — one state per `Event::Any`
+  impl obs   : `<line>/<pos>/<hint|n>/<mode>/<keys>/<n>/<positive> … => <outcome> O=<seg>|<seg>|…` — one state per `Event::Any`
                callback, and the bytes (hex, `-` = none) the editor wrote before the first callback,
                between consecutive callbacks, and after the last one.
   The bytes are fed to the Lean terminal emulator.  Oracle: at every callback the emulated screen must
-  show the state the callback saw; at the end the final-state rule.  Correspondence: the model editor's
+  show the state the callback saw under the prompt on display (the read's own, or inside an incremental search the
+  search prompt: `Rl/Spec/OracleScreen.lean`, from the callbacks' keys and the stored history); at the end the final-state rule.  Correspondence: the model editor's
   render log, replayed through the model renderer and the same emulator, must give the same callback
   states, the same screen and cursor at every callback and at the end, and the same outcome — screens
   are compared, never the spelling of escape sequences.  When they agree the model answer is the
@@ -21,6 +22,7 @@ import Rl.Term
 import Rl.Render
 import Rl.Spec.Screen
 import Rl.Spec.EdObs
+import Rl.Spec.OracleScreen
 namespace Rl.Drv.Render
 open Rl Rl.Wire Rl.Drv.Keys Rl.Drv.Editor Rl.Spec
 
@@ -30,12 +32,16 @@ structure SyncState where
   hint : Option Text
 deriving DecidableEq, Repr
 
+def ofCb (c : ScreenCb) : SyncState := { line := c.line, pos := c.pos, hint := c.hint }
+
 def parseHint (s : String) : Option (Option Text) :=
   if s == "n" then some none else (parseText s).map some
 
-def parseState (s : String) : Option SyncState :=
+def parseState (s : String) : Option ScreenCb :=
   match s.splitOn "/" with
-  | [l, p, h] => do pure { line := ← parseText l, pos := ← p.toNat?, hint := ← parseHint h }
+  | [l, p, h, m, k, n, pos] => do
+    pure { line := ← parseText l, pos := ← p.toNat?, hint := ← parseHint h, mode := m,
+           keys := ← (k.splitOn "+").mapM parseKeyEv, n := ← n.toNat?, positive := ← parseBool pos }
   | _ => none
 
 def decodeSeg (s : String) : Option Text :=
@@ -46,7 +52,7 @@ def decodeSeg (s : String) : Option Text :=
     pure str.toList
 
 structure ImplR where
-  states : List SyncState
+  states : List ScreenCb
   outcome : String
   segs : List Text
 
@@ -87,13 +93,18 @@ def firstSome {α : Type} : List (Option α) → Option α
 def zipIdx {α : Type} (l : List α) : List (Nat × α) := (List.range l.length).zip l
 
 /-- the property oracle on the implementation's output -/
-def oracle (cw : Char → Nat) (cols : Nat) (prompt : Text) (o : ImplR) : Option String :=
+def oracle (cw : Char → Nat) (cols : Nat) (prompt : Text) (hist : List Text) (o : ImplR) : Option String :=
   let terms := feedSegs cw (Term.blank cols) o.segs
   if terms.length != o.states.length + 1 then some "segments-and-callbacks-out-of-step"
   else
-    let perSync := (zipIdx (o.states.zip terms)).map (fun (i, st, t) =>
-      let (b, a) := splitBefore st.line st.pos
-      (showsCheck cw t prompt b a (st.hint.getD [])).map (fun why => s!"key{i}:{why}"))
+    -- the prompt on display at each callback: the own one, or the search prompt inside an incremental search
+    let shown := promptsOnDisplay prompt hist o.states
+    let perSync := (zipIdx ((o.states.zip terms).zip shown)).map (fun (i, (st, t), p?) =>
+      match p? with
+      | none => none
+      | some p =>
+        let (b, a) := splitBefore st.line st.pos
+        (showsCheck cw t p b a (st.hint.getD [])).map (fun why => s!"key{i}:{why}"))
     match firstSome perSync with
     | some why => some why
     | none =>
@@ -153,14 +164,14 @@ def handle (tbl : CharTable) (f : List String) (impl : String) : Option (String 
       else if impl == "panic" then pure ((if panicked || o == .panic then "panic" else "model:" ++ outcome), "fail:panic")
       else pure ("unparsable", "fail:unparsable-implementation-observation")
     | some io =>
-      let spec := match oracle cw cols prompt io with
+      let spec := match oracle cw cols prompt hist io with
         | none => "ok"
         | some why => "fail:" ++ why
       let iterms := feedSegs cw (Term.blank cols) io.segs
       let diff : Option String :=
         if panicked then some "model-renderer-panic"
         else if outcome != io.outcome then some s!"outcome:{outcome}"
-        else if mstates != io.states then
+        else if mstates != io.states.map ofCb then
           some s!"callback-states:{mstates.length}:{io.states.length}"
         else
           -- after a hang-up nothing more reaches the terminal, and a panic (D5: `y ^` in vi mode) unwinds
